@@ -64,8 +64,32 @@ structure POut where
   notDecrypted : Bool
 deriving DecidableEq, Repr
 
-/-- `Processor.OnColumn` -/
-def pOnColumn (c : CryptoOps) (hkey : Option Bytes) (s : PState) (data : Bytes) : Out POut :=
+/-- `Processor.OnColumn` (after the repair "fix: hmac.Processor verifies on its second call and keeps
+nothing across columns"). `second` = the column's context already carries the processor's mark,
+i.e. this is the subscription after the decryptors. The first call forgets any previous state, cuts
+the hash off a `hash ++ envelope` value and remembers it; the second call only verifies and forgets. -/
+def pOnColumn (c : CryptoOps) (hkey : Option Bytes) (second : Bool) (s : PState) (data : Bytes) : Out POut :=
+  if second then
+    match pProcess c hkey s data with
+    | .panic => .panic
+    | .err => .err
+    | .ok false => .ok ⟨PState.init, s.rawData, true⟩
+    | .ok true => .ok ⟨PState.init, data, false⟩
+  else
+    match extractHash data with
+    | none => .ok ⟨PState.init, data, false⟩
+    | some h =>
+      match matchEnvelope (data.drop h.length) with
+      | .panic => .panic
+      | .err => .err
+      | .ok false => .ok ⟨PState.init, data, false⟩
+      | .ok true => .ok ⟨{ hashData := some (data.take h.length), matchedHash := some h, rawData := data }, data.drop h.length, false⟩
+
+/-- `Processor.OnColumn` as it was on the pinned tree (before the repair): every call first verifies
+against whatever state is left, then searches the data it was given – on the second call that is
+the *decrypted plaintext* – for a hash again. Kept only to state what was wrong
+(`Props.C09.legacy_*`). -/
+def legacyOnColumn (c : CryptoOps) (hkey : Option Bytes) (s : PState) (data : Bytes) : Out POut :=
   match pProcess c hkey s data with
   | .panic => .panic
   | .err => .err
@@ -82,10 +106,11 @@ def pOnColumn (c : CryptoOps) (hkey : Option Bytes) (s : PState) (data : Bytes) 
 
 /-- one column through the subscriber chain of `proxy.go`:
 `hmacProcessor → containerDetector → hmacProcessor` (the detector is a parameter: `det data` is the
-column after `OldContainerDetectorWrapper.OnColumn`, `none` when a callback failed fatally).
+column after `OldContainerDetectorWrapper.OnColumn`, `fatal` when a callback failed – the remaining
+subscribers are then skipped). `onCol second` is the processor's `OnColumn`.
 Result: state afterwards and the value delivered to the next subscriber. -/
-def column (c : CryptoOps) (hkey : Option Bytes) (det : Bytes → ScanOut) (s : PState) (col : Bytes) : Out (PState × Option Bytes) :=
-  match pOnColumn c hkey s col with
+def columnWith (onCol : Bool → PState → Bytes → Out POut) (det : Bytes → ScanOut) (s : PState) (col : Bytes) : Out (PState × Option Bytes) :=
+  match onCol false s col with
   | .panic => .panic
   | .err => .err
   | .ok o1 =>
@@ -93,10 +118,16 @@ def column (c : CryptoOps) (hkey : Option Bytes) (det : Bytes → ScanOut) (s : 
     | .panic => .panic
     | .fatal => .ok (o1.st, none)
     | .ok d _ =>
-      match pOnColumn c hkey o1.st d with
+      match onCol true o1.st d with
       | .panic => .panic
       | .err => .err
       | .ok o2 => .ok (o2.st, some o2.data)
+
+def column (c : CryptoOps) (hkey : Option Bytes) (det : Bytes → ScanOut) (s : PState) (col : Bytes) : Out (PState × Option Bytes) :=
+  columnWith (pOnColumn c hkey) det s col
+
+def legacyColumn (c : CryptoOps) (hkey : Option Bytes) (det : Bytes → ScanOut) (s : PState) (col : Bytes) : Out (PState × Option Bytes) :=
+  columnWith (fun _ => legacyOnColumn c hkey) det s col
 
 /-- a row / result set: the columns one after another through the same `Processor` object -/
 def columns (c : CryptoOps) (hkey : Option Bytes) (det : Bytes → ScanOut) : PState → List Bytes → Out (PState × List (Option Bytes))
@@ -107,6 +138,19 @@ def columns (c : CryptoOps) (hkey : Option Bytes) (det : Bytes → ScanOut) : PS
     | .err => .err
     | .ok (s1, o) =>
       match columns c hkey det s1 rest with
+      | .ok (s2, os) => .ok (s2, o :: os)
+      | .err => .err
+      | .panic => .panic
+
+/-- rows through the pinned tree's processor (regression witnesses) -/
+def legacyColumns (c : CryptoOps) (hkey : Option Bytes) (det : Bytes → ScanOut) : PState → List Bytes → Out (PState × List (Option Bytes))
+  | s, [] => .ok (s, [])
+  | s, col :: rest =>
+    match legacyColumn c hkey det s col with
+    | .panic => .panic
+    | .err => .err
+    | .ok (s1, o) =>
+      match legacyColumns c hkey det s1 rest with
       | .ok (s2, os) => .ok (s2, o :: os)
       | .err => .err
       | .panic => .panic
